@@ -409,6 +409,8 @@ fn main() {
         }
         (None, Some(l_cli), _) => {
             let fp = cte::wfactors_from_loc(l_cli, default_locwf, user_wf, default_userwf);
+            // Actualiza metadato CTE_LOCALIZACION al valor seleccionado
+            components.set_meta("CTE_LOCALIZACION", l_cli);
             ("usuario", l_cli.to_string(), fp)
         }
         (None, None, Some(l_meta)) => {
